@@ -43,7 +43,9 @@ def types():
         ir.field("st", ir.set_(pr("DATETIME"))), ir.field("sk", ir.set_(pr("BEARERTOKEN"))), ir.field("sb", ir.set_(pr("BINARY"))),
         ir.field("sa", ir.set_(ir.ref("PlInt", PKG))), ir.field("sbool", ir.set_(pr("BOOLEAN"))),
         ir.field("se", ir.set_(ir.ref("Grammar", PKG))), ir.field("sar", ir.set_(ir.ref("PlRid", PKG))),
+        ir.field("sobj", ir.set_(ir.ref("DoubleSeq", PKG))), ir.field("mobj", ir.map_(ir.ref("PlStr", PKG), ir.ref("DoubleSeq", PKG))),
     ], package=PKG))
+    out.append(ir.object_("DoubleSeq", [ir.field("l", ir.list_(ir.prim("DOUBLE"))), ir.field("o", ir.optional(ir.prim("DOUBLE")))], package=PKG))
     out.append(ir.alias_("OptStrAlias", ir.optional(ir.prim("STRING")), package=PKG))
     out.append(ir.alias_("OptInnerAlias", ir.optional(ir.ref("Inner", PKG)), package=PKG))
     out.append(ir.alias_("SafeStr", ir.prim("STRING"), safety="safe", package=PKG))
